@@ -118,8 +118,10 @@ pub fn exec_case(prog: impl Strategy<Value = Vec<MOp>>, rich_init: bool) -> impl
         state_spec(),
         cost_table(),
         limit_value(),
+        proptest::option::weighted(0.15, proptest::collection::vec(word(), 0..60)),
     )
-        .prop_map(|(prog, init, (solutions, index), state, costs, limit)| ExecCase {
+        .prop_map(|(prog, init, (solutions, index), state, costs, limit, parent)| ExecCase {
+            parent,
             prog,
             init,
             solutions,
